@@ -597,4 +597,275 @@ theorem translated_FFAll (net : Net W) (σ : Nat → W → Option W) (lvl : Nat 
     rw [acts_get net fn h t j nd hget hn]
     exact hσ j nd hn (neuron_facts net lvl hff j nd hn hs).1
 
+theorem order_mem_procList (net : Net W) (j : Nat) (nd : NNodeS W) (hj : j ∈ orderOf net) (hn : net.nodes[j]? = some nd)
+    (hk : nd.kind ≠ Kind.bias) : j ∈ procList net := by
+  simp only [procList, orderOf, List.mem_append] at hj ⊢
+  rcases hj with ((h | h) | h) | h
+  · obtain ⟨nd', h1, h2⟩ := (mem_idxOfKind net _ j).mp h
+    rw [hn] at h1
+    simp only [Option.some.injEq] at h1
+    subst h1
+    exact absurd h2 hk
+  · exact Or.inl (Or.inl h)
+  · exact Or.inr h
+  · exact Or.inl (Or.inr h)
+
+/-- the connections into fast index `idx j` are exactly those emitted for node `j` -/
+theorem filter_conns (net : Net W) {lvl : Nat → Nat} (hwf : TWF net lvl) (j : Nat) (hj : j ∈ orderOf net) (L : List Nat)
+    (hL : ∀ a ∈ L, a ∈ orderOf net) (hnd : L.Nodup) :
+    (L.flatMap (connsOf net)).filter (fun c => c.dst == idx net j) = if j ∈ L then connsOf net j else [] := by
+  induction L with
+  | nil => simp
+  | cons a L ih =>
+    obtain ⟨ha, hnd'⟩ := List.nodup_cons.mp hnd
+    rw [List.flatMap_cons, List.filter_append, ih (fun a' h' => hL a' (by simp [h'])) hnd']
+    by_cases haj : a = j
+    · subst haj
+      have : (connsOf net a).filter (fun c => c.dst == idx net a) = connsOf net a := by
+        rw [List.filter_eq_self]
+        intro c hc
+        obtain ⟨_, _, _, rfl⟩ := (mem_connsOf net a c).mp hc
+        simp
+      simp [this, ha]
+    · have : (connsOf net a).filter (fun c => c.dst == idx net j) = [] := by
+        rw [List.filter_eq_nil_iff]
+        intro c hc
+        obtain ⟨_, _, _, rfl⟩ := (mem_connsOf net a c).mp hc
+        simp only [beq_iff_eq]
+        exact fun hh => haj (idx_inj net hwf _ _ (hL a (by simp)) hj hh)
+      have hne : ¬ j = a := fun h => haj h.symm
+      simp [this, hne]
+
+theorem conns_into (net : Net W) {lvl : Nat → Nat} (hwf : TWF net lvl) (fn : FastNet W) (h : OfNet net fn) (j : Nat)
+    (hj : j ∈ procList net) : fn.conns.filter (fun c => c.dst == idx net j) = connsOf net j := by
+  rw [h.tia.conns, filter_conns net hwf j (procList_mem_order net j hj) (procList net)
+    (fun a ha => procList_mem_order net a ha) (procList_nodup net hwf)]
+  simp [hj]
+
+theorem no_bias (net : Net W) (fn : FastNet W) (h : OfNet net fn) (h0 : ¬ fn.nBias > 0) : ∀ j, isBiasAt net j = false := by
+  intro j
+  cases hb : isBiasAt net j with
+  | false => rfl
+  | true =>
+    simp only [isBiasAt, kindAt, beq_iff_eq, Option.map_eq_some_iff] at hb
+    have hm := (mem_idxOfKind net Kind.bias j).mpr hb
+    have : (idxOfKind net Kind.bias).length = 0 := by rw [← h.nBias]; omega
+    rw [List.length_eq_zero_iff] at this
+    rw [this] at hm
+    simp at hm
+
+/-! ### 8. Kind B: the folded biases and `fvalNode (ofNet net) (idx i) = evalNode net i` -/
+
+section Exact
+variable {K : Type} [Scalar K] [CommSemiring K] [ExactArith K]
+
+structure TIB (net : Net K) (vals sig : Nat → K) (done : List Nat) (b : List K) (c : List (FLink K)) : Prop where
+  len : b.length = net.nodes.length
+  self : ∀ i ∈ done, i ∈ orderOf net
+  sum : ∀ i ∈ done, tFold sig (connsOf net i) 0 + getW b (idx net i) = linkSum vals (incOf net i) 0
+  zero : ∀ t, (∀ i ∈ done, t ≠ idx net i) → getW b t = 0
+
+theorem TIB_step (net : Net K) {lvl : Nat → Nat} (hwf : TWF net lvl) (vals sig : Nat → K)
+    (Hval : ∀ (j : Nat) (sn : NNodeS K), net.nodes[j]? = some sn → (sn.kind == Kind.bias) = true → vals j = 1)
+    (Hsig : ∀ j, j ∈ orderOf net → sig (idx net j) = vals j)
+    (all : List Nat) (hall : all.Nodup) (done : List Nat) (i : Nat) (rest : List Nat) (nd : NNodeS K) (t : Nat)
+    (b : List K) (c : List (FLink K)) (b1 : List K) (c1 : List (FLink K)) (hsplit : all = done ++ i :: rest)
+    (hn : net.nodes[i]? = some nd) (hl : lookupId (lkOf net) nd.id = some t)
+    (hlinks : procIncoming.links net (lkOf net) t nd.incoming b c = .ok (b1, c1)) (hP : TIB net vals sig done b c) :
+    TIB net vals sig (done ++ [i]) b1 c1 := by
+  obtain ⟨hmem, ht⟩ := lookup_idx net hwf i t nd hn hl
+  obtain ⟨h1, _, _, _⟩ := links_shape net hwf t nd.incoming b c b1 c1 hlinks
+  have hinc := incOf_eq net i nd hn
+  have htl : t < b.length := by rw [hP.len, ← hwf.len, ht]; exact idx_lt net hwf i hmem
+  obtain ⟨new, g1, _, g3, g4, g5⟩ := translation_node net (lkOf net) t vals sig nd.incoming b c b1 c1 htl hlinks
+    (fun l _ sn hsn hb => Hval l.src sn hsn hb)
+    (fun l _ sn sIdx hsn hlk _ => by
+      obtain ⟨hm, hs⟩ := lookup_idx net hwf l.src sIdx sn hsn hlk
+      rw [hs]; exact Hsig _ hm)
+  have hnew : new = connsOf net i := by
+    have := List.append_cancel_left (g1.symm.trans h1)
+    rw [this, connsOf, hinc, ht]
+  have hid : i ∉ done := by
+    rw [hsplit] at hall
+    intro hi
+    exact (List.nodup_append.mp hall).2.2 i hi i (by simp) rfl
+  have hne : ∀ i' ∈ done, idx net i' ≠ t := by
+    intro i' hi' he
+    rw [ht] at he
+    exact hid (idx_inj net hwf _ _ (hP.self i' hi') hmem he ▸ hi')
+  refine ⟨by rw [g3, hP.len], ?_, ?_, ?_⟩
+  · intro i' hi'
+    rcases List.mem_append.mp hi' with h | h
+    · exact hP.self i' h
+    · simp only [List.mem_singleton] at h; subst h; exact hmem
+  · intro i' hi'
+    rcases List.mem_append.mp hi' with h | h
+    · rw [g4 _ (hne i' h)]; exact hP.sum i' h
+    · simp only [List.mem_singleton] at h
+      subst h
+      rw [← hnew, ← ht, g5, hinc, hP.zero t (fun i'' h'' => (hne i'' h'').symm), zero_add]
+  · intro t' ht'
+    have : t' ≠ t := by rw [ht]; exact ht' i (by simp)
+    rw [g4 t' this]
+    exact hP.zero t' (fun i' h' => ht' i' (by simp [h']))
+
+theorem ofNet_TIB (net : Net K) {lvl : Nat → Nat} (hwf : TWF net lvl) (fn : FastNet K) (h : ofNet net = .ok fn)
+    (vals sig : Nat → K)
+    (Hval : ∀ (j : Nat) (sn : NNodeS K), net.nodes[j]? = some sn → (sn.kind == Kind.bias) = true → vals j = 1)
+    (Hsig : ∀ j, j ∈ orderOf net → sig (idx net j) = vals j) :
+    TIB net vals sig (procList net) fn.biasList fn.conns := by
+  obtain ⟨b1, c1, b2, c2, b3, c3, h1, h2, h3, rfl⟩ := ofNet_inv net fn h
+  have step := fun done i (rest : List Nat) nd t b c b1 c1 (hs : procList net = done ++ i :: rest) hn hl hlinks hP =>
+    TIB_step net hwf vals sig Hval Hsig (procList net) (procList_nodup net hwf) done i rest nd t b c b1 c1 hs hn hl hlinks hP
+  have rule := procIncoming_inv net (lkOf net) (TIB net vals sig) (procList net) step
+  obtain ⟨s1, s2, s3⟩ := procList_split net
+  have t0 : TIB net vals sig [] (List.replicate net.nodes.length (Scalar.zero : K)) [] :=
+    ⟨by simp, by simp, by simp, fun t _ => by rw [getW_replicate_zero, ExactArith.zero_eq]⟩
+  have t1 := rule _ [] _ _ _ _ _ s1 h1 t0
+  have t2 := rule _ _ _ _ _ _ _ s2 h2 t1
+  have t3 := rule _ _ [] _ _ _ _ s3 h3 t2
+  exact t3
+
+theorem sumIn_linkSum (ev : Nat → Option K) (vals : Nat → K) (ls : List (NLink K))
+    (h : ∀ l ∈ ls, ev l.src = some (vals l.src)) (acc : K) : sumIn ev ls acc = some (linkSum vals ls acc) := by
+  induction ls generalizing acc with
+  | nil => rfl
+  | cons l ls ih =>
+    unfold sumIn
+    rw [h l (by simp)]
+    simp only
+    rw [ih (fun l' h' => h l' (by simp [h']))]
+    simp [linkSum]
+
+theorem evalNode_sensor (net : Net K) (σ : Nat → K → Option K) (sens : Nat → K) (f j : Nat) (nd : NNodeS K)
+    (hn : net.nodes[j]? = some nd) (hs : nd.isSensor = true) : evalNode net σ sens (f + 1) j = some (sens j) := by
+  unfold evalNode
+  simp [hn, hs]
+
+/-- **The translation, globally (Kind B).**  For every non-bias node `j` that received a fast index: the feed-forward
+    value of the fast representation at `idx j` is the feed-forward value of the network at `j`. -/
+theorem fval_eq_eval_aux (net : Net K) (σ : Nat → K → Option K) (lvl : Nat → Nat) (hff : Solver.FFProps net lvl)
+    (hwf : TWF net lvl) (fn : FastNet K) (hofn : ofNet net = .ok fn)
+    (hσ : ∀ (i : Nat) (nd : NNodeS K), net.nodes[i]? = some nd → nd.isNeuron = true → ∀ x, (σ nd.act x).isSome = true)
+    (sens sigF : Nat → K)
+    (hb : ∀ (j : Nat) (nd : NNodeS K), net.nodes[j]? = some nd → (nd.kind == Kind.bias) = true → sens j = 1)
+    (hs : ∀ (j : Nat) (nd : NNodeS K), net.nodes[j]? = some nd → nd.kind = Kind.input → sigF (idx net j) = sens j) :
+    ∀ (n j : Nat) (nd : NNodeS K), j ∈ orderOf net → net.nodes[j]? = some nd → nd.kind ≠ Kind.bias → lvl j ≤ n →
+      ∃ v, evalNode net σ sens (lvl j + 1) j = some v ∧ fvalNode fn σ sigF (lvl j + 1) (idx net j) = some v := by
+  have hF := ofNet_facts net hwf fn hofn
+  have hall := translated_FFAll net σ lvl hff hwf fn hF hσ
+  let vals : Nat → K := fun j => (evalNode net σ sens (lvl j + 1) j).getD 0
+  let sig : Nat → K := fun s => vals ((orderOf net).getD s 0)
+  have Hval : ∀ (j : Nat) (sn : NNodeS K), net.nodes[j]? = some sn → (sn.kind == Kind.bias) = true → vals j = 1 := by
+    intro j sn hsn hbk
+    show (evalNode net σ sens (lvl j + 1) j).getD 0 = 1
+    rw [evalNode_sensor net σ sens _ j sn hsn (by simp [NNodeS.isSensor, hbk]), Option.getD_some]
+    exact hb j sn hsn hbk
+  have Hsig : ∀ j, j ∈ orderOf net → sig (idx net j) = vals j := by
+    intro j hj
+    show vals ((orderOf net).getD (idx net j) 0) = vals j
+    rw [order_idx net hwf j hj]
+  have hB := ofNet_TIB net hwf fn hofn vals sig Hval Hsig
+  intro n
+  induction n with
+  | zero =>
+    intro j nd hj hn hk hl
+    -- rank 0: an input sensor (a neuron has rank ≥ 1)
+    by_cases hsn : nd.isSensor = true
+    · have hki : nd.kind = Kind.input := by
+        simp only [NNodeS.isSensor, Bool.or_eq_true, beq_iff_eq] at hsn
+        rcases hsn with h | h
+        · exact h
+        · exact absurd h hk
+      refine ⟨sens j, evalNode_sensor net σ sens _ j nd hn hsn, ?_⟩
+      unfold fvalNode
+      simp only [idx_sensor net fn hF j nd hn hsn, if_true]
+      rw [hs j nd hn hki]
+    · have := (neuron_facts net lvl hff j nd hn (by simpa using hsn)).2.1
+      omega
+  | succ n ih =>
+    intro j nd hj hn hk hl
+    by_cases hsn : nd.isSensor = true
+    · have hki : nd.kind = Kind.input := by
+        simp only [NNodeS.isSensor, Bool.or_eq_true, beq_iff_eq] at hsn
+        rcases hsn with h | h
+        · exact h
+        · exact absurd h hk
+      refine ⟨sens j, evalNode_sensor net σ sens _ j nd hn hsn, ?_⟩
+      unfold fvalNode
+      simp only [idx_sensor net fn hF j nd hn hsn, if_true]
+      rw [hs j nd hn hki]
+    · have hsn' : nd.isSensor = false := by simpa using hsn
+      obtain ⟨hneu, hpos, hsrc⟩ := neuron_facts net lvl hff j nd hn hsn'
+      have hjp := order_mem_procList net j nd hj hn hk
+      have hinc := incOf_eq net j nd hn
+      -- every source already has its value on both sides
+      have hsrcv : ∀ l ∈ nd.incoming, evalNode net σ sens (lvl j) l.src = some (vals l.src) ∧
+          (isBiasAt net l.src = false → fvalNode fn σ sigF (lvl j) (idx net l.src) = some (vals l.src)) := by
+        intro l hl'
+        have hso := hF.tia.src j hjp l (by rw [hinc]; exact hl')
+        obtain ⟨sn, hsn2⟩ := order_valid net hwf _ hso
+        have hlt := hsrc l hl'
+        by_cases hbk : (sn.kind == Kind.bias) = true
+        · constructor
+          · have h1 := evalNode_sensor net σ sens (lvl l.src) l.src sn hsn2 (by simp [NNodeS.isSensor, hbk])
+            have : vals l.src = sens l.src := by
+              show (evalNode net σ sens (lvl l.src + 1) l.src).getD 0 = _
+              rw [h1, Option.getD_some]
+            rw [this]
+            have hj1 : lvl j = (lvl j - 1) + 1 := by omega
+            rw [hj1]
+            exact evalNode_sensor net σ sens _ l.src sn hsn2 (by simp [NNodeS.isSensor, hbk])
+          · intro hnb
+            rw [isBiasAt_eq net l.src sn hsn2, hbk] at hnb
+            simp at hnb
+        · obtain ⟨v, e1, e2⟩ := ih l.src sn hso hsn2 (by simpa using hbk) (by omega)
+          have : vals l.src = v := by
+            show (evalNode net σ sens (lvl l.src + 1) l.src).getD 0 = _
+            rw [e1, Option.getD_some]
+          rw [this]
+          exact ⟨Solver.evalNode_mono_le net σ sens _ _ (by omega) _ _ e1,
+            fun _ => fvalNode_mono_le fn σ sigF _ _ (by omega) _ _ e2⟩
+      -- the network side
+      have hE : evalNode net σ sens (lvl j + 1) j = σ nd.act (linkSum vals nd.incoming 0) := by
+        conv => lhs; unfold evalNode
+        simp only [hn, hsn', Bool.false_eq_true, if_false]
+        rw [sumIn_linkSum _ vals nd.incoming (fun l hl' => (hsrcv l hl').1), ExactArith.zero_eq]
+      -- the fast side
+      have hidx := idx_neuron net fn hF j nd hn hsn'
+      have hget : (orderOf net)[idx net j]? = some j := by
+        have := idx_lt net hwf j hj
+        rw [List.getElem?_eq_getElem this]
+        exact congrArg some (List.getElem_idxOf this)
+      have hA : adjSum fn (fvalNode fn σ sigF (lvl j)) (idx net j) (revAdj fn (idx net j)) Scalar.zero =
+          some (tFold sig (connsOf net j) 0) := by
+        unfold revAdj
+        rw [adjSum_tFold fn hall.nd _ sig (idx net j) _ (fun c hc => by
+            simp only [List.mem_filter, beq_iff_eq] at hc; exact hc) (fun c hc => ?_) _,
+          conns_into net hwf fn hF j hjp, ExactArith.zero_eq]
+        rw [conns_into net hwf fn hF j hjp] at hc
+        obtain ⟨l, hl', hnb, rfl⟩ := (mem_connsOf net j c).mp hc
+        rw [hinc] at hl'
+        simp only
+        rw [(hsrcv l hl').2 hnb, Hsig _ (hF.tia.src j hjp l (by rw [hinc]; exact hl'))]
+      have hsum := hB.sum j hjp
+      rw [hinc] at hsum
+      have hFv : fvalNode fn σ sigF (lvl j + 1) (idx net j) = σ nd.act (linkSum vals nd.incoming 0) := by
+        conv => lhs; unfold fvalNode
+        have hns : ¬ idx net j < fn.nSensor := by omega
+        simp only [hns, if_false, hA]
+        rw [acts_get net fn hF _ j nd hget hn]
+        by_cases hnb : fn.nBias > 0
+        · simp only [hnb, if_true]
+          rw [ExactArith.add_eq, hsum]
+        · simp only [hnb, if_false]
+          have hz := hF.tia.nob (no_bias net fn hF hnb) (idx net j)
+          rw [hz, ExactArith.zero_eq, add_zero] at hsum
+          rw [hsum]
+      have hsome := hσ j nd hn hneu (linkSum vals nd.incoming 0)
+      obtain ⟨v, hv⟩ := Option.isSome_iff_exists.mp hsome
+      exact ⟨v, by rw [hE, hv], by rw [hFv, hv]⟩
+
+end Exact
+
 end GoNeat.Fast
